@@ -15,6 +15,9 @@ import (
 	"jkverif/chain"
 	"jkverif/gen"
 
+	"github.com/cosmos/cosmos-sdk/codec"
+	"github.com/jackalLabs/canine-chain/v4/app"
+
 	storagetypes "github.com/jackalLabs/canine-chain/v4/x/storage/types"
 	storageutils "github.com/jackalLabs/canine-chain/v4/x/storage/utils"
 )
@@ -90,23 +93,28 @@ func c02Enumerate() []c02Sched {
 
 const c02QuickA, c02ThorA, c02QuickB = 40, 600, 600
 
+// part (c): free schedules over odd files (paid-once files running past their expiry height, same-block re-posts)
+const c02QuickC, c02ThorC = 120, 3000
+
 func init() {
 	Register(&Prop{
 		ID:    "C02",
 		Title: "Honest provers can always prove and are never dropped or burned",
 		Cases: func(t string) int {
 			if t == "thorough" {
-				return c02ThorA + len(c02Enumerate())
+				return c02ThorA + len(c02Enumerate()) + c02ThorC
 			}
-			return c02QuickA + c02QuickB
+			return c02QuickA + c02QuickB + c02QuickC
 		},
 		Run: runC02,
 		Rule: "part (a): case = one file whose size is drawn from the boundary set {1,c-1,c,c+1,2c-1,2c,2c+1,kc,kc+-1} for chunk size c in {1,2,7,16,1024}; the repository's client-side BuildTree and an independent tree builder must give the same root and proofs; on chain the honest holder proves 10-14 times, each in a fresh block after 0-3 unrelated transactions (so the height+block-gas challenge seed varies); oracle: every challenge read through the Proof query designates an existing chunk and the honest proof for it returns Success=true. " +
 			"part (b): case = one schedule (proof window W in 2..7, reward interval C in 2..9, file start phase mod C, offset of the single honest proof inside each of 4 consecutive windows; all offsets for W<=4, else {first, middle, last, block before / at the first reward height}); a second honest prover joins in window 2; oracle after every reward BeginBlock: both provers still listed, their providers' burn counters unchanged, every proof accepted. quick = PRNG sample of the schedule space, thorough = the whole space (exhaustive for that bound). " +
-			"non-trivial signature: (a) (chunk size, size class, saw non-zero challenge); (b) the schedule tuple",
+			"part (c): case = W in 2..9, C in 2..9, file kind in {plan-paid, paid-once posted by transaction, paid-once seeded in genesis with expiry height 4..4+3W (the run continues for 7 windows, i.e. past the expiry), plan-paid posted, proven by prover 1 and posted again in the same block}; prover 1 joins in window 0, prover 2 in window 0..2, and both prove once per window at PRNG offsets through window 6; same oracle as (b). " +
+			"non-trivial signature: (a) (chunk size, size class, saw non-zero challenge); (b) the schedule tuple; (c) (kind, W, C, join windows, run passed the expiry height)",
 		Assumptions: []string{
 			"an honest holder submits within the block it chooses; transaction inclusion delays are outside the property",
 			"part (b) is exhaustive only for the stated bound (4 windows, W<=7, C<=9, one proof per window, restricted offsets for W>=5)",
+			"part (c): a paid-once file close to its expiry height is seeded through genesis (reaching one by transactions takes >= 14400 blocks); the chain keeps checking such a file's provers after the expiry height, so the honest prover keeps proving and stays owed protection",
 		},
 		MinNonTriv: 200,
 		Exhaustive: func(t string) bool { return t == "thorough" },
@@ -125,8 +133,16 @@ func runC02(rc *RunCtx) {
 	sp := c02Enumerate()
 	var sc c02Sched
 	if rc.Tier == "thorough" {
+		if rc.Case-na >= len(sp) {
+			runC02c(rc)
+			return
+		}
 		sc = sp[rc.Case-na]
 	} else {
+		if rc.Case >= c02QuickA+c02QuickB {
+			runC02c(rc)
+			return
+		}
 		sc = sp[rc.Rng.Intn(len(sp))]
 	}
 	runC02b(rc, sc)
@@ -404,4 +420,170 @@ func runC02b(rc *RunCtx, sc c02Sched) {
 	rc.NonTrivial(fmt.Sprintf("b/W%d/C%d/ph%d/%v", W, C, sc.Phase, sc.Offs))
 	rc.Sample(map[string]interface{}{"part": "b", "W": W, "C": C, "phase": sc.Phase, "offsets": sc.Offs, "start": S})
 	_ = storagetypes.ModuleName
+}
+
+// runC02c: free schedules over odd files.
+func runC02c(rc *RunCtx) {
+	W := int64(2 + rc.Intn(8))
+	C := int64(2 + rc.Intn(8))
+	kind := []string{"plan", "payonce-tx", "payonce-genesis", "payonce-genesis", "repost"}[rc.Intn(5)]
+	sp := storageParams(W, C, 1024)
+	sp.CollateralPrice = 1000
+	f := gen.NewFile(randBytes(rc.Rng, int64(1+rc.Intn(5000))), 1024)
+	chain.SetBech32()
+	owner := sdk.AccAddress(chain.DeriveKey(rc.Seed, 0).PubKey().Address()).String()
+	cfg := chain.Config{Seed: rc.Seed, NAcc: 3, Storage: sp}
+	var S, E int64
+	if kind == "payonce-genesis" {
+		S = 1 // the first block: the run starts at the file's first height
+		E = 4 + int64(rc.Intn(int(3*W)+1))
+		cfg.Mutate = func(cdc codec.JSONCodec, gs app.GenesisState) {
+			var sg storagetypes.GenesisState
+			cdc.MustUnmarshalJSON(gs[storagetypes.ModuleName], &sg)
+			sg.FileList = append(sg.FileList, storagetypes.UnifiedFile{Merkle: f.Root(), Owner: owner, Start: S, Expires: E, FileSize: f.Size(),
+				ProofInterval: W, ProofType: 0, Proofs: []string{}, MaxProofs: 3, Note: "{}"})
+			gs[storagetypes.ModuleName] = cdc.MustMarshalJSON(&sg)
+		}
+	}
+	c, err := chain.New(cfg)
+	if err != nil {
+		rc.Abort("init: " + err.Error())
+		return
+	}
+	defer c.Close()
+	if c.Accs[0].Bech != owner {
+		rc.Abort("account derivation mismatch")
+		return
+	}
+	s := &SW{rc: rc, c: c}
+	if _, err := c.NextBlock(6 * time.Second); err != nil {
+		rc.Abort(err.Error())
+		return
+	}
+	if r := s.BuyPlan(0, 0, 5_000_000_000, 60, ""); !r.OK() {
+		rc.Abort("buy: " + r.Log)
+		return
+	}
+	for p := 1; p <= 2; p++ {
+		if r := s.InitProvider(p, fmt.Sprintf("https://a.p%d.example", p)); !r.OK() {
+			rc.Abort("provider: " + r.Log)
+			return
+		}
+	}
+	// prover 1 joins in the file's first window (a file nobody stores after its first window is dropped by design)
+	join := map[int]int64{1: 0, 2: int64(rc.Intn(3))}
+	var wf *WFile
+	switch kind {
+	case "payonce-genesis":
+		wf = &WFile{F: f, Owner: 0, OwnerAddr: owner, Start: S, MaxProofs: 3, Expires: E, Size: f.Size(), Window: W}
+		s.Files = append(s.Files, wf)
+	default:
+		for i := rc.Intn(int(C)); i > 0; i-- {
+			if _, err := c.NextBlock(6 * time.Second); err != nil {
+				rc.Abort(err.Error())
+				return
+			}
+		}
+		exp := int64(0)
+		if kind == "payonce-tx" {
+			exp = c.Height + 14_400 + int64(rc.Intn(100_000))
+		}
+		var r chain.TxResult
+		if wf, r = s.PostFile(0, f, 3, exp, -1); !r.OK() {
+			rc.Abort("post: " + r.Log)
+			return
+		}
+		if kind == "repost" {
+			// post, first proof, and the same file posted again by its owner, all in one block
+			join[1] = 0
+			if pr := s.ProveHonest(1, wf); !pr.Success {
+				rc.Fail("C02/honest-proof-rejected", "kind=%s: first proof right after the post at h=%d rejected: %s", kind, c.Height, pr.ErrMsg)
+				return
+			}
+			s.Files = nil
+			wf2, r2 := s.PostFile(0, f, 3, 0, -1)
+			if !r2.OK() || wf2.Start != wf.Start {
+				rc.Abort(fmt.Sprintf("re-post: %s", r2.Log))
+				return
+			}
+			wf = wf2
+		}
+		S = wf.Start
+	}
+	rc.Logf("kind=%s W=%d C=%d start=%d expires=%d joins=%v", kind, W, C, S, wf.Expires, join)
+	const L = 6
+	offs := map[[2]int64]int64{}
+	off := func(p int, win int64) int64 {
+		k := [2]int64{int64(p), win}
+		if _, ok := offs[k]; !ok {
+			offs[k] = int64(rc.Intn(int(W)))
+		}
+		return offs[k]
+	}
+	joined := map[int]bool{}
+	end := S + (L+1)*W + C + 1
+	passedExpiry := false
+	for {
+		rel := c.Height - S
+		win := rel / W
+		if rel >= 0 {
+			for p := 1; p <= 2; p++ {
+				if win >= join[p] && win <= L && rel%W == off(p, win) {
+					pr := s.ProveHonest(p, wf)
+					rc.Eval(1)
+					if !pr.Success {
+						rc.Fail("C02/honest-proof-rejected", "kind=%s W=%d C=%d start=%d expires=%d: proof of prover %d at h=%d (window %d) rejected: %s", kind, W, C, S, wf.Expires, p, c.Height, win, pr.ErrMsg)
+						return
+					}
+					joined[p] = true
+				}
+			}
+		}
+		if c.Height >= end {
+			break
+		}
+		ro, err := s.StepBlock(6 * time.Second)
+		if err != nil {
+			if pe, ok := err.(*chain.PanicError); ok {
+				rc.Abort("BeginBlock panic: " + pe.Value)
+			} else {
+				rc.Abort(err.Error())
+			}
+			return
+		}
+		if wf.Expires > 0 && ro.Height > wf.Expires {
+			passedExpiry = true
+		}
+		if !ro.IsReward {
+			continue
+		}
+		rc.Eval(1)
+		h := ro.Height
+		if h >= S+(L+2)*W {
+			continue // window L+1 is skipped by design; from here on a removal is legitimate
+		}
+		pf := ro.Post.File(wf.Key())
+		for p := 1; p <= 2; p++ {
+			if !joined[p] {
+				continue
+			}
+			addr := c.Accs[p].Bech
+			listed := false
+			if pf != nil {
+				for _, pk := range pf.Proofs {
+					if proverOfKey(pk) == addr {
+						listed = true
+					}
+				}
+			}
+			if !listed {
+				rc.Fail("C02/honest-prover-removed", "kind=%s W=%d C=%d start=%d expires=%d: prover %d (joined in window %d, proved once in every window since) is no longer listed after the reward block at h=%d (window %d)", kind, W, C, S, wf.Expires, p, join[p], h, (h-S)/W)
+			}
+			if b0, b1 := burned(ro.Pre.Providers[addr]), burned(ro.Post.Providers[addr]); b1 != b0 {
+				rc.Fail("C02/honest-prover-burned", "kind=%s W=%d C=%d start=%d expires=%d: prover %d burn counter %d -> %d at reward block h=%d", kind, W, C, S, wf.Expires, p, b0, b1, h)
+			}
+		}
+	}
+	rc.NonTrivial(fmt.Sprintf("c/%s/W%d/C%d/j%d%d/past-expiry=%v", kind, W, C, join[1], join[2], passedExpiry))
+	rc.Sample(map[string]interface{}{"part": "c", "kind": kind, "W": W, "C": C, "start": S, "expires": wf.Expires, "joins": fmt.Sprint(join)})
 }
